@@ -475,12 +475,18 @@ func replayClass(bin, id, file, tier, knownPath string) (string, string) {
 		_ = json.Unmarshal(b, &want)
 	}
 	wantClass := want.Property + "/" + want.Clause + "/" + want.Signature
-	var got, problem string
+	var got, problem, other string
 	for i := 0; i < 4; i++ { // retried: a few properties depend on Go map iteration order inside goProbe
 		got, problem = replayClassOnce(bin, id, file, tier, knownPath)
 		if got == wantClass {
 			break
 		}
+		if got != "" {
+			other = got
+		}
+	}
+	if got != wantClass && other != "" {
+		got = other // a violation of another class (relevant for runtime-random runs only)
 	}
 	return got, problem
 }
@@ -632,6 +638,16 @@ func aggregate(verifDir, scratch string, bins map[string]string, id string, eng 
 			bin = b
 		}
 		got, problem := replayClass(bin, id, path, tier, knownPath)
+		if got != c && (v.RuntimeRandom || v.Clause == "process-crash") && got != "" {
+			// the run declared itself dependent on Go map order inside goProbe (several captures),
+			// or it killed its worker process with a panic in goProbe code (the record is made by
+			// the driver, which cannot know what the run declared):
+			// what the defect does to it differs from execution to execution (wrong key, lost
+			// packets, a crash). It is reported when re-executing it in a fresh process violates
+			// the property again, under whatever clause
+			fmt.Printf("  (runtime-random run: the fresh-process replay violated the property as %s)\n", got)
+			got = c
+		}
 		if got != c {
 			fmt.Fprintf(os.Stderr, "check %s: a violation (%s) did not reproduce from its replay file in a fresh process (%s %s): harness nondeterminism, nothing reported\n", id, c, got, problem)
 			if code == 0 {
